@@ -5,6 +5,7 @@ import (
 	"runtime"
 	"runtime/debug"
 	"strings"
+	"unicode/utf8"
 
 	"github.com/zclconf/go-cty/cty"
 	ctyjson "github.com/zclconf/go-cty/cty/json"
@@ -163,6 +164,9 @@ func evalValue(resp *Resp, val cty.Value, want cty.Type) {
 			return
 		}
 	}
+	if resp.WF == nil {
+		resp.WF = utf8Check(val)
+	}
 	got := val.Type()
 	resp.VTypeGo = clip(fmt.Sprintf("%#v", got), 400)
 	st := spec.FromCty(got)
@@ -176,6 +180,42 @@ func evalValue(resp *Resp, val cty.Value, want cty.Type) {
 			break
 		}
 	}
+}
+
+// utf8Check is a well-formedness rule the shared validator does not have: a
+// cty string "represents a sequence of unicode codepoints" and StringVal's
+// documented precondition is a valid UTF-8 sequence (docs/types.md,
+// cty/value_init.go), so every known string, every map key and every prefix
+// of an unknown string in a decoded value must be valid UTF-8 (the MessagePack
+// decoder itself rejects an ill-encoded prefix refinement).
+func utf8Check(val cty.Value) (ret *facet.Failure) {
+	_ = cty.Walk(val, func(p cty.Path, v cty.Value) (bool, error) {
+		if ret != nil {
+			return false, nil
+		}
+		v, _ = v.Unmark()
+		ty := v.Type()
+		switch {
+		case v.IsNull():
+		case ty == cty.String && v.IsKnown():
+			if s := v.AsString(); !utf8.ValidString(s) {
+				ret = facet.Failf("utf8", "known string %q at path of length %d is not valid UTF-8", s, len(p))
+			}
+		case ty == cty.String:
+			if s := v.Range().StringPrefix(); !utf8.ValidString(s) {
+				ret = facet.Failf("utf8", "prefix %q of the unknown string at path of length %d is not valid UTF-8", s, len(p))
+			}
+		case ty.IsMapType() && v.IsKnown():
+			for it := v.ElementIterator(); it.Next(); {
+				k, _ := it.Element()
+				if s := k.AsString(); !utf8.ValidString(s) {
+					ret = facet.Failf("utf8", "map key %q at path of length %d is not valid UTF-8", s, len(p))
+				}
+			}
+		}
+		return true, nil
+	})
+	return ret
 }
 
 // evalType checks that a type returned by a type decoder is usable: the
